@@ -472,6 +472,14 @@ where
       // Populate the store shard by shard.
       for (i, entries) in entries_by_shard.into_iter().enumerate() {
         if !entries.is_empty() {
+          // Restored entries must become known to the shard's eviction policy like any
+          // inserted entry (through the write-event buffer the next maintenance pass
+          // drains); otherwise they can never be chosen as eviction victims.
+          for (key, entry) in entries.iter() {
+            let _ = store.shards[i]
+              .event_buffer_tx
+              .try_send(crate::policy::AccessEvent::Write(key.clone(), entry.cost()));
+          }
           let mut guard = store.shards[i].map.write();
           *guard = entries;
         }
